@@ -463,4 +463,35 @@ func runC04Case(id string, c *c04Case) {
 	cs.Obs = fmt.Sprintf("%s sync %s %s", strings.Join(outs, ","), hxList(wl), hx([]byte(cached)))
 	cs.Nontrivial = len(c.Levels) > 1
 	emit(cs)
+	// ---- the same history on the exchange-level model (NetworkHistory.run_aop: what the C04 history
+	// theorems are about): the device's own log of (mode, line), its final mode and the driver's
+	// cached level must be what that model computes.  Left out: authenticated edges whose dialogue
+	// cannot succeed (no secret configured / a device that refuses): those are C12's subject.
+	absOK := cs.HypOK
+	for _, l := range c.Levels {
+		if l.Auth && (c.Secondary == "" || c.OnAuth == int(sim.AuthRejects)) {
+			absOK = false
+		}
+	}
+	if absOK {
+		var prompts, devlog [][]byte
+		for _, l := range c.Levels {
+			prompts = append(prompts, []byte(dev.Levels[l.Name].Prompt))
+		}
+		for _, pl := range dev.CommandLines() {
+			devlog = append(devlog, []byte(pl.Mode+"|"+pl.Line))
+		}
+		var flags strings.Builder
+		for _, o := range outs {
+			if strings.HasPrefix(o, "err:") {
+				flags.WriteByte('E')
+			} else {
+				flags.WriteByte('k')
+			}
+		}
+		as := &Case{ID: id + "/abs", Kind: "abs/" + cs.Kind, HypOK: true, Replay: c, Nontrivial: cs.Nontrivial}
+		as.Line = fmt.Sprintf("netabs %s %s %s %s %s", hx([]byte(c.Default)), hxStrs(specs), hxStrs(calls), hx([]byte(c.StartMode)), hxList(prompts))
+		as.Obs = fmt.Sprintf("%s %s %s %s", flags.String(), hxList(devlog), hx([]byte(dev.Mode)), hx([]byte(cached)))
+		emit(as)
+	}
 }
